@@ -259,6 +259,13 @@ impl Case {
     }
 }
 
+impl Case {
+    /// every document keeps one language throughout a case: that of its first didOpen (plain text if none)
+    fn lang_of(&self, u: Url) -> Lang {
+        self.ops.iter().find_map(|o| match o { Op::Open(u2, l, _) if *u2 == u => Some(*l), _ => None }).unwrap_or(Lang::P)
+    }
+}
+
 /// number of client-interaction steps a handler needs cannot be known without running it; the
 /// sequential schedule simply repeats `Run(id)` often enough (surplus steps are dropped by the executor
 /// when `lenient` is set — used only to *construct* schedules, never when replaying one)
@@ -565,6 +572,7 @@ struct Outcome {
     fdict: BTreeMap<Url, BTreeSet<usize>>,
     cfg_orders: BTreeMap<usize, Vec<Url>>,
     steps: usize,
+    max_flight: usize,
     /// (time, url, content) whenever a document on disk changes (time 0: initial)
     disk_log: Vec<(usize, Url, Option<Text>)>,
 }
@@ -651,11 +659,11 @@ fn lint_json_for(text: &Rendered, lang: Lang, k: usize, user: &BTreeSet<usize>, 
     Value::Null
 }
 
-fn request_of(w: &World, op: &Op, client: &Client, udict: &BTreeSet<usize>, fdict: &BTreeSet<usize>, version: i64) -> (&'static str, Value, bool) {
+fn request_of(w: &World, c: &Case, op: &Op, client: &Client, udict: &BTreeSet<usize>, fdict: &BTreeSet<usize>, version: i64) -> (&'static str, Value, bool) {
     match op {
         Op::Open(u, l, t) => ("textDocument/didOpen", json!({"textDocument": {"uri": w.uri(*u), "languageId": l.lsp_id(), "version": version, "text": render(*t, *l).text}}), false),
         Op::Change(u, t) => {
-            let lang = client.open.get(u).map(|x| x.0).unwrap_or(Lang::P);
+            let lang = c.lang_of(*u);
             ("textDocument/didChange", json!({"textDocument": {"uri": w.uri(*u), "version": version}, "contentChanges": [{"text": render(*t, lang).text}]}), false)
         }
         Op::Save(u) => ("textDocument/didSave", json!({"textDocument": {"uri": w.uri(*u)}}), false),
@@ -730,7 +738,7 @@ fn execute(w: &World, c: &Case, lenient: bool, executed: &mut Vec<K>) -> Outcome
     // the language of a document on disk is not known to the file system: texts on disk are rendered in
     // the language of the first didOpen of that url in the history (plain text if there is none)
     for (u, t) in &c.disk {
-        let lang = c.ops.iter().find_map(|o| match o { Op::Open(u2, l, _) if u2 == u => Some(*l), _ => None }).unwrap_or(Lang::P);
+        let lang = c.lang_of(*u);
         if let Some(p) = w.path(*u) {
             std::fs::write(p, render(*t, lang).text).unwrap();
             cl.disk.insert(*u, *t);
@@ -746,6 +754,7 @@ fn execute(w: &World, c: &Case, lenient: bool, executed: &mut Vec<K>) -> Outcome
     let mut valid = true;
     let mut stuck = false;
     let mut time = 0;
+    let mut max_flight = 0;
     let rev: HashMap<String, Url> = c.urls().into_iter().map(|u| (w.uri(u), u)).collect();
     let base_pub = s.published.len();
     debug_assert!(base_pub == 0);
@@ -774,10 +783,11 @@ fn execute(w: &World, c: &Case, lenient: bool, executed: &mut Vec<K>) -> Outcome
                 let ud = World::read_words(&format!("{}/cfg/user.txt", w.base));
                 let fd = op.url().and_then(|u| w.fdict_path(u)).map(|p| World::read_words(&p)).unwrap_or_default();
                 // document versions increase with every message, as an editor's do
-                let (method, params, is_req) = request_of(w, &op, &cl, &ud, &fd, time as i64);
+                let (method, params, is_req) = request_of(w, c, &op, &cl, &ud, &fd, time as i64);
                 let fut = s.start(method, params, is_req);
                 let saw = op.url().map(|u| cl.disk.get(&u).cloned());
                 hs.push(Handler { op, fut: Some(fut), pending: None, admitted: time, done: None, saw_disk: saw.into_iter().collect() });
+                max_flight = max_flight.max(hs.iter().filter(|h| h.fut.is_some()).count());
                 executed.push(K::Admit);
             }
             K::Run(id) => {
@@ -850,6 +860,7 @@ fn execute(w: &World, c: &Case, lenient: bool, executed: &mut Vec<K>) -> Outcome
         fdict,
         cfg_orders,
         steps,
+        max_flight,
         disk_log,
     }
 }
@@ -922,6 +933,8 @@ fn reference(w: &World, cache: &mut RefCache, u: Url, lang: Lang, text: Text, ig
 struct Ctx {
     w: World,
     cache: RefCache,
+    /// correspondence lines (case for the model, what the implementation did)
+    lines: Vec<(String, String)>,
 }
 
 fn run_case(rep: &mut Report, ctx: &mut Ctx, c: &Case) {
@@ -953,7 +966,7 @@ fn emit(rep: &mut Report, ctx: &mut Ctx, c: &Case, o: &Outcome) {
         rep.fail("stuck", "a handler neither finished nor asked the client anything within 20 s".into(), input.clone());
     }
     if !o.valid {
-        rep.case(&case_line, "P");
+        ctx.lines.push((case_line.clone(), "P".to_string()));
         rep.count("schedule:not-executable");
         return;
     }
@@ -1010,7 +1023,7 @@ fn emit(rep: &mut Report, ctx: &mut Ctx, c: &Case, o: &Outcome) {
         if o.quiescent { "q" } else { "n" },
         stale.iter().map(|u| u.tok()).collect::<Vec<_>>().join(" ")
     );
-    rep.case(&case_line, impl_line.trim());
+    ctx.lines.push((case_line.clone(), impl_line.trim().to_string()));
     // ---- distribution
     let overlapping = o.handlers.iter().enumerate().any(|(i, h)| o.handlers.iter().enumerate().any(|(j, g)| i < j && g.1 < h.2.unwrap_or(usize::MAX)));
     rep.count(if overlapping { "handlers:overlapping" } else { "handlers:sequential" });
@@ -1019,42 +1032,13 @@ fn emit(rep: &mut Report, ctx: &mut Ctx, c: &Case, o: &Outcome) {
     for op in &c.ops {
         rep.count(&format!("op:{}", op.name()));
     }
-    let maxfl = max_in_flight(c);
-    rep.count(&format!("max-in-flight:{maxfl}"));
+    rep.count(&format!("max-in-flight:{}", o.max_flight));
     if c.ops.len() >= 2 && !o.pubs.is_empty() {
         rep.nontrivial(&case_line);
     }
     if rep.samples.len() < 6 && overlapping && !stale.is_empty() {
         rep.sample(json!({"case": case_line, "published": impl_line}));
     }
-}
-
-fn max_in_flight(c: &Case) -> usize {
-    // upper bound from the schedule alone: admissions minus handlers that certainly finished cannot be
-    // known statically; report the number of admissions between two points where everything was run
-    let mut cur: usize = 0;
-    let mut best = 0;
-    let mut runs: BTreeMap<usize, usize> = BTreeMap::new();
-    let mut next = 0;
-    for k in &c.sched {
-        match k {
-            K::Admit => {
-                cur += 1;
-                next += 1;
-                best = best.max(cur);
-            }
-            K::Run(i) => {
-                let n = runs.entry(*i).or_insert(0);
-                *n += 1;
-                // a handler is surely finished after 2 steps unless it is a configuration change
-                let long = matches!(c.ops.get(*i), Some(Op::Cfg(_)));
-                if *i < next && ((!long && *n == 2) || (long && *n == 6)) {
-                    cur = cur.saturating_sub(1);
-                }
-            }
-        }
-    }
-    best.min(4)
 }
 
 /// Attribute a stale last word to a cause, from the harness's own records only (admission and
@@ -1205,12 +1189,26 @@ fn classify(rep: &mut Report, o: &Outcome, u: Url, pubs: &[(Dec, usize)], input:
                 }
             }
             if !text_stale && t.ign != *ign {
-                let h = origin(&|d| matches!(d, Dec::T(x) if x.ign == t.ign)).unwrap();
-                let is_ign = |op: &Op| matches!(op, Op::Ignore(..)) && op.url() == Some(u);
-                if let Some(j) = overtaker(h, &is_ign) {
-                    causes.push(("reorder".into(), format!("{}: {} (sent later, finished earlier) was applied to the document as it was before {}", u.tok(), desc(j), desc(h))));
-                } else {
-                    unexplained(&mut causes, format!("{}: ignored lints {:?}, client ignored {:?}", u.tok(), t.ign, ign));
+                let text_op = |op: &Op| matches!(op, Op::Open(..) | Op::Change(..) | Op::Save(_) | Op::Close(_)) && op.url() == Some(u);
+                // an ignore the client asked for but the server does not apply: it was handled while the
+                // document was not (yet) in doc_state, i.e. it overtook an earlier message for the document
+                for k in ign.difference(&t.ign) {
+                    let j = (0..o.handlers.len()).rev().find(|j| o.handlers[*j].0 == Op::Ignore(u, *k));
+                    let overtook = j.and_then(|j| {
+                        (0..o.handlers.len()).find(|h| text_op(&o.handlers[*h].0) && o.handlers[*h].1 < o.handlers[j].1 && o.handlers[*h].2 > o.handlers[j].2).map(|h| (j, h))
+                    });
+                    match overtook {
+                        Some((j, h)) => causes.push(("reorder".into(), format!("{}: {} (sent later, finished earlier) was handled before {} had put the document into doc_state; the ignore is lost", u.tok(), desc(j), desc(h)))),
+                        None => unexplained(&mut causes, format!("{}: ignored lints {:?}, client ignored {:?}", u.tok(), t.ign, ign)),
+                    }
+                }
+                // an ignore the server applies although the client's document no longer has it (re-opened)
+                if t.ign.difference(ign).next().is_some() {
+                    let h = origin(&|d| matches!(d, Dec::T(x) if x.ign == t.ign)).unwrap();
+                    match overtaker(h, &text_op_on_u) {
+                        Some(j) => causes.push(("reorder".into(), format!("{}: {} kept the ignore list of a document that {} (sent later, finished earlier) had closed", u.tok(), desc(h), desc(j)))),
+                        None => unexplained(&mut causes, format!("{}: ignored lints {:?}, client ignored {:?}", u.tok(), t.ign, ign)),
+                    }
                 }
             }
             if causes.is_empty() {
@@ -1368,7 +1366,32 @@ fn random_schedule_plan(r: &mut Rng, n_ops: usize, window: usize) -> Vec<K> {
     plan
 }
 
-/// run `c` with a plan executed leniently; returns the case with the schedule that was really executed
+// ------------------------------------------------------------------------------------------------
+// work items, executed by a small pool of threads (each with its own runtime, server sessions and
+// scratch directory); results are merged in the main thread
+// ------------------------------------------------------------------------------------------------
+enum Work {
+    /// execute the schedule exactly as written (corpus, replays, deliberately inexecutable schedules)
+    Exact(Case),
+    /// execute a plan leniently (steps naming finished handlers are skipped); the schedule really
+    /// executed becomes the case
+    Planned(Case, Vec<K>),
+    /// every interleaving, at client-interaction granularity, of the handlers of `batch` (all in flight
+    /// together) after `prefix` was handled sequentially
+    Exhaustive { base: Case, prefix: Vec<Op>, batch: Vec<Op> },
+}
+
+fn sequential_plan(n: usize) -> Vec<K> {
+    let mut plan = vec![];
+    for i in 0..n {
+        plan.push(K::Admit);
+        for _ in 0..8 {
+            plan.push(K::Run(i));
+        }
+    }
+    plan
+}
+
 fn run_planned(rep: &mut Report, ctx: &mut Ctx, mut c: Case, plan: Vec<K>) {
     c.sched = plan;
     let mut executed = vec![];
@@ -1377,99 +1400,191 @@ fn run_planned(rep: &mut Report, ctx: &mut Ctx, mut c: Case, plan: Vec<K>) {
     emit(rep, ctx, &c, &o);
 }
 
-/// all interleavings at client-interaction granularity of the handlers of `batch`, admitted in order with
-/// at most `window` in flight, after `prefix` was handled sequentially.  Step counts are discovered on
-/// the fly: the executor is re-run for every schedule (depth-first over the choice tree).
-fn exhaustive(rep: &mut Report, ctx: &mut Ctx, base: &Case, prefix: &[Op], batch: &[Op], window: usize, limit: &mut u64) -> u64 {
-    // the prefix schedule, discovered by one lenient run
+/// upper bound on the number of client-interaction steps of a handler (surplus steps are skipped)
+fn step_bound(op: &Op) -> usize {
+    match op {
+        Op::Cfg(_) => 3,
+        Op::Close(_) | Op::Ignore(..) | Op::DelFile(..) | Op::DelDir(_) | Op::Record => 1,
+        _ => 2,
+    }
+}
+
+/// all sequences of A / Run(i): admissions in order, every Run(i) after the i-th admission, handler i
+/// run at most bound[i] times
+fn all_plans(bounds: &[usize]) -> Vec<Vec<K>> {
+    fn go(bounds: &[usize], admitted: usize, left: &mut Vec<usize>, cur: &mut Vec<K>, out: &mut Vec<Vec<K>>) {
+        if admitted == bounds.len() && left.iter().all(|x| *x == 0) {
+            out.push(cur.clone());
+            return;
+        }
+        if admitted < bounds.len() {
+            cur.push(K::Admit);
+            left.push(bounds[admitted]);
+            go(bounds, admitted + 1, left, cur, out);
+            left.pop();
+            cur.pop();
+        }
+        for i in 0..admitted {
+            if left[i] > 0 {
+                left[i] -= 1;
+                cur.push(K::Run(i));
+                go(bounds, admitted, left, cur, out);
+                cur.pop();
+                left[i] += 1;
+            }
+        }
+    }
+    let mut out = vec![];
+    go(bounds, 0, &mut vec![], &mut vec![], &mut out);
+    out
+}
+
+fn exhaustive(rep: &mut Report, ctx: &mut Ctx, base: &Case, prefix: &[Op], batch: &[Op]) -> u64 {
     let mut c = base.clone();
     c.ops = prefix.iter().cloned().chain(batch.iter().cloned()).collect();
-    let mut plan = vec![];
-    for i in 0..prefix.len() {
-        plan.push(K::Admit);
-        for _ in 0..8 {
-            plan.push(K::Run(i));
-        }
-    }
-    let mut pre = vec![];
-    {
-        let mut cc = c.clone();
-        cc.sched = plan.clone();
-        let _ = execute(&ctx.w, &cc, true, &mut pre);
-    }
-    // discover the number of steps of each batch handler when run alone after the prefix (upper bound
-    // for the tree: a handler never needs more steps than alone + number of documents)
     let p = prefix.len();
+    let bounds: Vec<usize> = batch.iter().map(step_bound).collect();
+    let mut seen: std::collections::HashSet<String> = Default::default();
     let mut count = 0;
-    // depth-first: state = schedule so far; children = Admit (if allowed) or Run(i) for live handlers.
-    // liveness is learnt from the executor: a schedule whose last step names a finished handler is not
-    // executable, which prunes that branch.
-    let mut stack: Vec<Vec<K>> = vec![vec![]];
-    while let Some(sfx) = stack.pop() {
-        if *limit == 0 {
-            break;
+    for plan in all_plans(&bounds) {
+        let mut sched = sequential_plan(p);
+        sched.extend(plan.iter().map(|k| match k { K::Admit => K::Admit, K::Run(i) => K::Run(p + i) }));
+        // whatever is still unfinished (a handler that needed more steps than its bound) is completed in order
+        for i in 0..batch.len() {
+            for _ in 0..4 {
+                sched.push(K::Run(p + i));
+            }
         }
         let mut cc = c.clone();
-        cc.sched = pre.iter().cloned().chain(sfx.iter().cloned()).collect();
-        let mut ex = vec![];
-        let o = execute(&ctx.w, &cc, false, &mut ex);
-        if !o.valid {
-            continue;
-        }
-        if o.quiescent {
-            *limit -= 1;
+        cc.sched = sched;
+        let mut executed = vec![];
+        let o = execute(&ctx.w, &cc, true, &mut executed);
+        cc.sched = executed;
+        if seen.insert(cc.sched_tok()) {
             count += 1;
-            cc.origin = base.origin.clone();
             emit(rep, ctx, &cc, &o);
-            continue;
-        }
-        let admitted = sfx.iter().filter(|k| **k == K::Admit).count();
-        let live: Vec<usize> = (0..admitted).filter(|i| o.handlers[p + *i].2.is_none()).collect();
-        if admitted < batch.len() && live.len() < window {
-            let mut s2 = sfx.clone();
-            s2.push(K::Admit);
-            stack.push(s2);
-        }
-        for i in live {
-            let mut s2 = sfx.clone();
-            s2.push(K::Run(p + i));
-            stack.push(s2);
         }
     }
     count
 }
 
-fn corpus_case(v: &Value) -> Option<Case> {
-    Case::from_json(v)
+fn do_work(rep: &mut Report, ctx: &mut Ctx, w: Work) {
+    match w {
+        Work::Exact(c) => run_case(rep, ctx, &c),
+        Work::Planned(c, plan) => run_planned(rep, ctx, c, plan),
+        Work::Exhaustive { base, prefix, batch } => {
+            let n = exhaustive(rep, ctx, &base, &prefix, &batch);
+            rep.count_n(&format!("exhaustive-schedules:{}-in-flight", batch.len()), n);
+        }
+    }
+}
+
+struct Part {
+    rep: Report,
+    lines: Vec<(String, String)>,
+    hits: u64,
+    misses: u64,
+}
+
+fn run_pool(out: &str, works: Vec<Work>, threads: usize) -> Vec<Part> {
+    let queue = std::sync::Arc::new(std::sync::Mutex::new(works.into_iter().rev().collect::<Vec<Work>>()));
+    let mut handles = vec![];
+    for k in 0..threads {
+        let queue = queue.clone();
+        let out = out.to_string();
+        handles.push(std::thread::spawn(move || {
+            let rt = runtime();
+            let _g = rt.enter();
+            let base = format!("/tmp/w-c09-{}-{k}", std::process::id());
+            let mut ctx = Ctx { w: World { base: base.clone() }, cache: RefCache::default(), lines: vec![] };
+            let mut rep = Report::new(&format!("{out}/part{k}"));
+            loop {
+                let w = queue.lock().unwrap().pop();
+                match w {
+                    Some(w) => do_work(&mut rep, &mut ctx, w),
+                    None => break,
+                }
+            }
+            let _ = std::fs::remove_dir_all(&base);
+            Part { rep, lines: std::mem::take(&mut ctx.lines), hits: ctx.cache.hits, misses: ctx.cache.misses }
+        }));
+    }
+    handles.into_iter().map(|h| h.join().expect("worker thread panicked")).collect()
+}
+
+fn thorough_works() -> Vec<Work> {
+    let a = Url::File(0, 0);
+    let b = Url::File(0, 1);
+    let un = Url::Untitled(0);
+    let t = |n: usize| Text { tid: n, ident: 0 };
+    // prefixes: (name, initial disk, messages handled one at a time)
+    let prefixes: Vec<(&str, Vec<(Url, Text)>, Vec<Op>)> = vec![
+        ("clean-file+second", vec![], vec![Op::Open(a, Lang::M, t(0)), Op::Save(a), Op::Open(b, Lang::P, t(1)), Op::Save(b)]),
+        ("dirty-file", vec![(a, t(5))], vec![Op::Open(a, Lang::P, t(0))]),
+        ("untitled+file", vec![], vec![Op::Open(un, Lang::M, t(0)), Op::Open(a, Lang::P, t(1)), Op::Save(a)]),
+        ("code", vec![], vec![Op::Open(a, Lang::C, Text { tid: 0, ident: 1 }), Op::Save(a)]),
+    ];
+    let mut works = vec![];
+    for (pi, (name, disk, prefix)) in prefixes.iter().enumerate() {
+        let first = match &prefix[0] {
+            Op::Open(u, l, _) => (*u, *l),
+            _ => unreachable!(),
+        };
+        let ident = if first.1 == Lang::C { 1 } else { 0 };
+        let alphabet: Vec<Op> = vec![
+            Op::Change(first.0, Text { tid: 2, ident }),
+            Op::Change(first.0, Text { tid: 3, ident }),
+            Op::Close(first.0),
+            Op::AddUser(0, first.0),
+            Op::Save(first.0),
+            Op::Cfg(1),
+            Op::AddFile(2, first.0),
+            Op::Ignore(first.0, 0),
+            Op::Change(a, Text { tid: 4, ident: 0 }),
+            Op::DelFile(0, 0),
+        ];
+        let base = Case { cfg0: 0, disk: disk.clone(), udict: vec![], fdict: vec![], ops: vec![], sched: vec![], origin: format!("exhaustive:{name}") };
+        // all ordered pairs of messages, both handlers in flight
+        for x in &alphabet {
+            for y in &alphabet {
+                works.push(Work::Exhaustive { base: base.clone(), prefix: prefix.clone(), batch: vec![x.clone(), y.clone()] });
+            }
+        }
+        // all ordered triples over the first few messages, three handlers in flight
+        let small = if pi == 0 { 4 } else { 3 };
+        for x in &alphabet[..small] {
+            for y in &alphabet[..small] {
+                for z in &alphabet[..small] {
+                    works.push(Work::Exhaustive { base: base.clone(), prefix: prefix.clone(), batch: vec![x.clone(), y.clone(), z.clone()] });
+                }
+            }
+        }
+    }
+    works
 }
 
 fn main() {
     let (args, corpus) = hv::cli();
     let mut rep = Report::new(&args.out);
-    rep.rule = "histories of didOpen/didChange/didSave/didClose/didChangeWatchedFiles/executeCommand/didChangeConfiguration over 4 documents (3 files in 2 directories, 1 untitled) in 4 languages (plaintext, markdown, python, unknown), 2 settings objects, user- and file-dictionary words; schedules at client-interaction granularity executed on the real Backend: corpus (the model's refuting schedules), sequential histories, random interleavings with <= 4 handlers in flight, a malformed stream (messages for closed documents, double opens); thorough adds ALL interleavings of batches of 2 and 3 handlers (<= 3 in flight) over an alphabet of messages after several prefixes. non-trivial = distinct case with >= 2 messages and >= 1 publication".into();
+    rep.rule = "histories of didOpen/didChange/didSave/didClose/didChangeWatchedFiles/executeCommand/didChangeConfiguration over 4 documents (3 files in 2 directories, 1 untitled) in 4 languages (plaintext, markdown, python, unknown), 2 settings objects, user- and file-dictionary words; schedules at client-interaction granularity executed on the real Backend: corpus (the model's refuting schedules), sequential histories, random interleavings with <= 4 handlers in flight, a malformed stream (messages for closed documents, double opens, inexecutable schedules); thorough adds ALL interleavings of every ordered pair of 10 messages (2 in flight) and of every ordered triple of 3-4 messages (3 in flight) after 4 prefixes (saved file + second document, dirty file, untitled + file, source code). non-trivial = distinct case with >= 2 messages and >= 1 publication".into();
     let base = format!("/tmp/w-c09-{}", std::process::id());
     let rt = runtime();
     let _g = rt.enter();
-    let mut ctx = Ctx { w: World { base: base.clone() }, cache: RefCache::default() };
+    let mut ctx = Ctx { w: World { base: base.clone() }, cache: RefCache::default(), lines: vec![] };
     self_test(&mut rep, &mut ctx);
+    let _ = std::fs::remove_dir_all(&base);
+    let mut works: Vec<Work> = vec![];
     for v in &corpus {
-        match corpus_case(v) {
+        match Case::from_json(v) {
             Some(mut c) => {
                 if c.origin.is_empty() {
                     c.origin = "corpus".into();
                 }
                 if v.get("sched").and_then(|s| s.as_str()).is_some() {
-                    run_case(&mut rep, &mut ctx, &c);
+                    works.push(Work::Exact(c));
                 } else {
-                    // no schedule given: sequential
-                    let mut plan = vec![];
-                    for i in 0..c.ops.len() {
-                        plan.push(K::Admit);
-                        for _ in 0..8 {
-                            plan.push(K::Run(i));
-                        }
-                    }
-                    run_planned(&mut rep, &mut ctx, c, plan);
+                    let plan = sequential_plan(c.ops.len());
+                    works.push(Work::Planned(c, plan));
                 }
             }
             None => rep.fail("bad-input", "replay/corpus input does not parse".into(), v.clone()),
@@ -1478,30 +1593,24 @@ fn main() {
     if args.replay.is_none() {
         let mut r = Rng::new(args.seed);
         // sequential histories
-        for _ in 0..args.scale(120, 1500) {
+        for _ in 0..args.scale(120, 500) {
             let len = r.range(2, 9);
             let mut c = random_history(&mut r, len, true);
             c.origin = "sequential".into();
-            let mut plan = vec![];
-            for i in 0..c.ops.len() {
-                plan.push(K::Admit);
-                for _ in 0..8 {
-                    plan.push(K::Run(i));
-                }
-            }
-            run_planned(&mut rep, &mut ctx, c, plan);
+            let plan = sequential_plan(c.ops.len());
+            works.push(Work::Planned(c, plan));
         }
         // random interleavings
-        for _ in 0..args.scale(260, 4000) {
+        for _ in 0..args.scale(260, 1500) {
             let len = r.range(2, 8);
             let mut c = random_history(&mut r, len, true);
             c.origin = "interleaved".into();
             let window = r.range(2, 4);
             let plan = random_schedule_plan(&mut r, c.ops.len(), window);
-            run_planned(&mut rep, &mut ctx, c, plan);
+            works.push(Work::Planned(c, plan));
         }
         // malformed stream
-        for _ in 0..args.scale(60, 600) {
+        for _ in 0..args.scale(60, 300) {
             let len = r.range(2, 7);
             let mut c = random_history(&mut r, len, false);
             c.origin = "malformed".into();
@@ -1511,73 +1620,40 @@ fn main() {
                 c.sched = plan;
                 let i = r.below(c.sched.len() + 1);
                 c.sched.insert(i, K::Run(r.below(c.ops.len() + 2)));
-                run_case(&mut rep, &mut ctx, &c);
+                works.push(Work::Exact(c));
             } else {
-                run_planned(&mut rep, &mut ctx, c, plan);
+                works.push(Work::Planned(c, plan));
             }
         }
         if args.thorough() {
-            thorough_sweep(&mut rep, &mut ctx);
+            works.extend(thorough_works());
         }
     }
-    rep.extra.insert("reference_cache".into(), json!({"hits": ctx.cache.hits, "misses": ctx.cache.misses}));
-    let _ = std::fs::remove_dir_all(&base);
+    let threads: usize = std::env::var("C09_THREADS").ok().and_then(|s| s.parse().ok()).unwrap_or(if args.thorough() { 8 } else { 4 }).max(1);
+    let parts = run_pool(&args.out, works, threads);
+    let (mut hits, mut misses) = (0, 0);
+    for p in parts {
+        for (a, b) in &p.lines {
+            rep.case(a, b);
+        }
+        rep.evaluations += p.rep.evaluations;
+        rep.nontrivial.extend(p.rep.nontrivial.iter().cloned());
+        for s in p.rep.samples {
+            rep.sample(s);
+        }
+        rep.failures.extend(p.rep.failures.iter().cloned());
+        for (k, v) in &p.rep.dist {
+            *rep.dist.entry(k.clone()).or_insert(0) += v;
+        }
+        for (k, v) in &p.rep.monitors {
+            *rep.monitors.entry(k.clone()).or_insert(0) += v;
+        }
+        hits += p.hits;
+        misses += p.misses;
+    }
+    rep.extra.insert("reference_cache".into(), json!({"hits": hits, "misses": misses}));
+    rep.extra.insert("worker_threads".into(), json!(threads));
     rep.finish();
-}
-
-fn thorough_sweep(rep: &mut Report, ctx: &mut Ctx) {
-    let a = Url::File(0, 0);
-    let b = Url::File(0, 1);
-    let un = Url::Untitled(0);
-    let t = |n: usize| Text { tid: n, ident: 0 };
-    // prefixes: (name, initial disk, ops)
-    let prefixes: Vec<(&str, Vec<(Url, Text)>, Vec<Op>)> = vec![
-        ("clean-file+second", vec![], vec![Op::Open(a, Lang::M, t(0)), Op::Save(a), Op::Open(b, Lang::P, t(1)), Op::Save(b)]),
-        ("dirty-file", vec![(a, t(5))], vec![Op::Open(a, Lang::P, t(0))]),
-        ("untitled+file", vec![], vec![Op::Open(un, Lang::M, t(0)), Op::Open(a, Lang::P, t(1)), Op::Save(a)]),
-        ("code", vec![], vec![Op::Open(a, Lang::C, Text { tid: 0, ident: 1 }), Op::Save(a)]),
-    ];
-    let mut total2 = 0;
-    let mut total3 = 0;
-    for (name, disk, prefix) in &prefixes {
-        let first = match &prefix[0] {
-            Op::Open(u, l, _) => (*u, *l),
-            _ => unreachable!(),
-        };
-        let ident = if first.1 == Lang::C { 1 } else { 0 };
-        let alphabet: Vec<Op> = vec![
-            Op::Change(first.0, Text { tid: 2, ident }),
-            Op::Change(first.0, Text { tid: 3, ident }),
-            Op::Save(first.0),
-            Op::Close(first.0),
-            Op::AddUser(0, first.0),
-            Op::AddFile(2, first.0),
-            Op::Cfg(1),
-            Op::Ignore(first.0, 0),
-            Op::Change(a, Text { tid: 4, ident }),
-            Op::DelFile(0, 0),
-        ];
-        let base = Case { cfg0: 0, disk: disk.clone(), udict: vec![], fdict: vec![], ops: vec![], sched: vec![], origin: format!("exhaustive:{name}") };
-        // all ordered pairs, 2 in flight
-        for x in &alphabet {
-            for y in &alphabet {
-                let mut limit = 400;
-                total2 += exhaustive(rep, ctx, &base, prefix, &[x.clone(), y.clone()], 2, &mut limit);
-            }
-        }
-        // all ordered triples over a smaller alphabet, 3 in flight
-        let small: Vec<Op> = vec![alphabet[0].clone(), alphabet[1].clone(), alphabet[3].clone(), alphabet[4].clone(), alphabet[6].clone()];
-        for x in &small {
-            for y in &small {
-                for z in &small {
-                    let mut limit = 2000;
-                    total3 += exhaustive(rep, ctx, &base, prefix, &[x.clone(), y.clone(), z.clone()], 3, &mut limit);
-                }
-            }
-        }
-    }
-    rep.extra.insert("exhaustive_schedules_2_in_flight".into(), json!(total2));
-    rep.extra.insert("exhaustive_schedules_3_in_flight".into(), json!(total3));
 }
 
 /// the decoding really identifies what it claims to: on a fresh server, every probe toggles exactly when
